@@ -29,6 +29,7 @@ def dispatch (st : DriverState) (sub : String) (args : List String) : DriverStat
     ({ st with costModel := cm }, reply)
   | "cek" => (st, Drivers.Cek.handleCek st.costModel args)
   | "spec" => (st, Drivers.Cek.handleSpec args)
+  | "bcost" => (st, Drivers.Cek.handleBCost st.costModel args)
   | "shrink" => (st, Drivers.Shrink.handle args)
   | "flat" => (st, Drivers.Flat.handle args)
   | "db" => (st, Drivers.DeBruijn.handle args)
